@@ -113,12 +113,28 @@ func c12Pipeline(c *wk.Case) (string, string) {
 		{"[1,2].cross(" + src + ".top(15),(a,b)->a+b).size()", "par-cross"},
 		{src + ".top(15)", "par-lazy-result-dropped"},
 		{"numbers(1000).map(x->tick(0,x)).first()", "seq-first"},
+		// a panic (not an error) unwinding through the consumer of channel-fed stages with long sources
+		{"try numbers(1000000000).merge(numbers(1000000000),(a,b)->hpanic2(a,3)<b).size() catch 0", "merge-less-panics"},
+		{"numbers(1000000000).merge(numbers(1000000000),(a,b)->hpanic2(a,3)<b).size()", "merge-less-panics-uncaught"},
+		{"try numbers(1000000000).merge(numbers(1000000000),(a,b)->a<b).map(x->hpanic2(x,5)).size() catch 0", "merge-consumer-panics"},
+		{"[func less(a,b) if a>3 then less(a,b) else a<b; try numbers(1000000000).merge(numbers(1000000000), less).size() catch -1][0]", "merge-recursion-guard"},
+		{"try numbers(1000000000).merge(numbers(1000000000),(a,b)->a<b).map(x->failAt(x,5)).size() catch 0", "merge-consumer-fails-long"},
+		{"try numbers(100000).multiUse({u:l->l.map(x->hpanic2(x,5)).sum(),v:l->l.size()}).string() catch 0", "multiUse-consumer-panics"},
+		{"try numbers(100000).map(x->hpanic2(x,5)).multiUse({u:l->l.sum(),v:l->l.size()}).string() catch 0", "multiUse-source-panics"},
+		// misuse: the call is rejected after some of its goroutines may have been started
+		{"try numbers(10).multiUse({a:l->l.reduce((a,b)->a+b), b:3}) catch 0", "multiUse-rejected-not-a-function"},
+		{"try numbers(10).multiUse({a:l->l.sum(), b:l->l.size(), c:(x,y)->x}) catch 0", "multiUse-rejected-arity"},
+		{"try numbers(10).multiUse({a:l->l.sum(), b:\"x\"}).a catch 0", "multiUse-rejected-string"},
+		{"try numbers(10).merge(3,(a,b)->a<b).size() catch 0", "merge-rejected"},
+		{"try numbers(10).merge(numbers(10),(a,b,c)->a<b).size() catch 0", "merge-rejected-arity"},
+		{"try " + src + ".map((x,y)->x).size() catch 0", "par-then-rejected-arity"},
 	}
 	it := items[r.IntN(len(items))]
 	return it[0], it[1]
 }
 
 var c12pipeGen *value.FunctionGenerator
+var c12poisoned bool
 var c12tickGids = &tickRec{gids: map[int64]bool{}}
 
 func (c12) Run(c *wk.Case) {
@@ -134,6 +150,12 @@ func (c12) Run(c *wk.Case) {
 			c12tickGids.mu.Unlock()
 		})
 		c12pipeGen.AddStaticFunction("hpanic2", pipePanic())
+	}
+	if c12poisoned {
+		// goroutines leaked by an earlier case of this process are still computing (not blocked): they take
+		// the CPUs away from everything that follows, so the rest of this shard is skipped, not judged
+		c.Inconclusive("skipped-after-running-leak", "an earlier case of this worker process left running goroutines behind (reported as a violation there)")
+		return
 	}
 	time.Sleep(2 * time.Millisecond)
 	base := mon.Snapshot()
@@ -202,6 +224,11 @@ func (c12) Run(c *wk.Case) {
 	c.Count("snapshots", 2)
 	c.Count("class_"+class, 1)
 	if n > 0 {
+		for sig := range sigs {
+			if strings.HasSuffix(sig, "[running]") || strings.HasSuffix(sig, "[runnable]") {
+				c12poisoned = true
+			}
+		}
 		for _, sig := range mon.SortedKeys(sigs) {
 			c.Violation(sig, fmt.Sprintf("[%s, %s] after %d repetitions of %q %d goroutine(s) stay behind (%.2f per repetition): %v", c.Config, class, reps, truncate(item, 200), sigs[sig], float64(sigs[sig])/float64(reps), sigs),
 				map[string]any{"item": item, "class": class, "repetitions": reps, "leaked": sigs, "config": c.Config})
